@@ -281,3 +281,90 @@ func c10VerifyNative(sn int, seed []byte) {
 		verifAssert(!pub.Verify(uid, hid, hash, h, nil), "an empty S is rejected")
 	}
 }
+
+// UnwrapKey(uid, C, klen): accepted exactly for a 64-byte C (or 65 bytes with tag 04) whose coordinates are
+// canonical and on the curve and whose derived key is not all zero; the key is KDF(C || e(C, de) || uid).
+func verifH_c10_unwrap() {
+	cn := verifParam("cn")
+	c := verifBytes("C", cn)
+	keep := append([]byte(nil), c...)
+	uid := verifBytes("uid", 3)
+	if !verifSymbolic() {
+		// natively: a real wrap, then every alteration of the ciphertext's length or tag
+		seed := verifBytes("seed", 64)
+		mk := append([]byte(nil), seed[:32]...)
+		mk[0] &= 0x3f
+		mk[31] |= 1
+		master, err := NewEncryptMasterPrivateKey(mk)
+		if err != nil {
+			verifReach("end")
+			return
+		}
+		user, err := master.GenerateUserKey(uid, 3)
+		if err != nil {
+			verifReach("end")
+			return
+		}
+		r := append([]byte(nil), seed[32:]...)
+		r[0] &= 0x3f
+		r[31] |= 1
+		key, ct, err := master.PublicKey().WrapKey(&c12Reader{preset: [][]byte{r}, limit: 3}, uid, 3, 16)
+		verifAssert(err == nil && len(ct) == 65 && ct[0] == 4, "WrapKey yields 04 || x || y")
+		k1, err := user.UnwrapKey(uid, ct, 16)
+		verifAssert(err == nil && verifEqBytes(k1, key), "UnwrapKey inverts WrapKey (65-byte form)")
+		k2, err := user.UnwrapKey(uid, ct[1:], 16)
+		verifAssert(err == nil && verifEqBytes(k2, key), "UnwrapKey inverts WrapKey (64-byte form)")
+		bad := append([]byte(nil), ct...)
+		bad[0] = keep0(keep)
+		if bad[0] != 4 {
+			_, err = user.UnwrapKey(uid, bad, 16)
+			verifAssert(err != nil, "a 65-byte ciphertext with another tag is refused")
+		}
+		_, err = user.UnwrapKey(uid, append(append([]byte(nil), ct...), 0), 16)
+		verifAssert(err != nil, "a ciphertext with a trailing byte is refused")
+		_, err = user.UnwrapKey(uid, ct[:63], 16)
+		verifAssert(err != nil, "a truncated ciphertext is refused")
+		verifReach("end")
+		return
+	}
+	mpk := &EncryptMasterPublicKey{MasterPublicKey: &bn256.G1{}}
+	bn256.VerifSetG1(mpk.MasterPublicKey, verifBytes("ppub", 64))
+	priv := &EncryptPrivateKey{PrivateKey: &bn256.G2{}, EncryptMasterPublicKey: mpk}
+	bn256.VerifSetG2(priv.PrivateKey, verifBytes("de", 128))
+	key, err := priv.UnwrapKey(uid, c, 16)
+	var body []byte
+	switch {
+	case cn == 64:
+		body = keep
+	case cn == 65:
+		body = keep[1:]
+	}
+	want := false
+	var wantKey []byte
+	if body != nil {
+		if verifAll(!c12IsZero(body)) { // the all-zero encoding (point at infinity) is outside the abstract group model
+			sp := &bn256.G1{}
+			bn256.VerifSetG1(sp, body)
+			w := bn256.Pair(sp, priv.PrivateKey)
+			buf := append(append(append([]byte(nil), body...), w.Marshal()...), uid...)
+			wantKey = c10Kdf(buf, 16)
+			want = verifAll(cn == 64 || keep[0] == 4, c12Less(body[:32], c10P), c12Less(body[32:], c10P), bn256.VerifOnCurveG1(body[:32], body[32:]), !c12IsZero(wantKey))
+		} else {
+			verifReach("end")
+			return
+		}
+	}
+	verifAssert((err == nil) == want, "UnwrapKey accepts exactly: 64 bytes (or 04 || 64 bytes), canonical on-curve C, non-zero key")
+	if err == nil && want {
+		verifAssert(verifEqBytes(key, wantKey), "key = KDF(C || e(C, de) || uid)")
+		verifReach("accepted")
+	}
+	verifReach("end")
+}
+
+func keep0(b []byte) byte {
+	if len(b) == 0 {
+		return 0
+	}
+	return b[0]
+}
